@@ -97,4 +97,7 @@ Spec == Init /\ [][Next]_vars
 
 Finished == run # NoRun /\ run.done
 ResolveMeetsDecl == Finished => (run.found = IntoField(cfg, run.v, run.t) /\ run.found # 0)
+\* corpus-only exploration (used where only the configurations are wanted, not the run machine): states in which a
+\* run has begun are not expanded
+CorpusOnly == run = NoRun
 =============================================================================
